@@ -165,7 +165,6 @@ pub assume_specification[ char::from_u32 ](c: u32) -> (r: Option<char>)
 //@+ requires utf8_shape(slice@),
 //@+ ensures
 //@+     is_scalar(utf8_value(slice@)) ==> r as u32 == utf8_value(slice@),
-//@+     !is_scalar(utf8_value(slice@)) ==> r as u32 == 0xFFFD,
 //@subst? N13 std constant char::REPLACEMENT_CHARACTER inlined as its literal value /char::REPLACEMENT_CHARACTER/'\u{FFFD}'/
 //@forit 1 it
 //@loop 1 invariant
